@@ -769,23 +769,24 @@ class Executor:
             # Some inputs may be dynamic and still unavailable,
             # for which checking hashes is too early.
             # Therefore, only check the hashes of built and confirmed files.
-            inp_hashes = {
-                rec.path: rec.hash
-                for rec in run.step.inp_paths()
-                if rec.state in (FileState.BUILT, FileState.CONFIRMED)
-            }
+            inp_hashes = {}
+            for rec in run.step.inp_paths():
+                if rec.state in (FileState.BUILT, FileState.CONFIRMED):
+                    # An input verified before the command started must still be what it was then.
+                    # Its stored hash may have been refreshed in the meantime,
+                    # because its producer ran again or another consumer failed on the change,
+                    # which must not hide the change from this run.
+                    inp_hashes[rec.path] = run.inp_hashes.get(rec.path, rec.hash)
+                elif rec.path in run.inp_hashes:
+                    # The input was available when the command started and no longer is:
+                    # its producer was made pending, or another consumer found it missing.
+                    # Marking the producer pending does not reach a running consumer,
+                    # so this step must run again once the input is available.
+                    run.unavailable.add(rec.path)
             env_deps = list(run.step.env_deps())
             out_hashes = {rec.path: rec.hash for rec in run.step.out_paths()}
             shell = run.step.uses_shell()
             env_overrides = run.step.get_env_overrides()
-
-        # An input verified before the command started must still be what it was then.
-        # Its stored hash may have been refreshed in the meantime,
-        # because its producer ran again or because another consumer failed on the change,
-        # which must not hide the change from this run.
-        for path, file_hash in run.inp_hashes.items():
-            if path in inp_hashes:
-                inp_hashes[path] = file_hash
 
         result = await self._run_work_thread(
             run, functools.partial(compute_both_hashes, inp_hashes, out_hashes)
